@@ -665,6 +665,16 @@ func (s *scope) createInstance(descriptor *Descriptor) (any, error) {
 
 	// Handle multi-return constructors
 	if descriptor.MultiReturnIndex >= 0 {
+		// A nil output is not an instance: reject it before anything is stored, like a nil single return value
+		for _, ret := range info.Returns {
+			if !ret.IsError && results[ret.Index].Interface() == nil {
+				return nil, &ValidationError{
+					ServiceType: ret.Type,
+					Cause:       fmt.Errorf("constructor returned nil instance"),
+				}
+			}
+		}
+
 		for _, ret := range info.Returns {
 			if ret.IsError {
 				continue
